@@ -398,7 +398,7 @@ var (
 		{"2.23.140.1.2.4", gen.OIDPolDV}, {"2.23.140.1.2", gen.OIDPolOV}, {gen.OIDPolIV, "2.23.140.1.2.9"}, {"2.23.140.1.1.1", gen.OIDPolEV}, {"1.3.6.1.4.1.99999.2", "2.23.140.1.2.1.1", gen.OIDPolDV},
 		{"2.23.140.1.5.1.4", "2.23.140.1.5.1.1"}, {"2.23.140.1.5.5.1", "2.23.140.1.5.2.2"}, {"2.23.140.1.5.1", "2.23.140.1.5.4.3"}, {"2.23.140.1.5.0.0", "1.3.6.1.4.1.99999.2", "2.23.140.1.5.3.1"}, {"2.23.140.1.5.1.1.1", "2.23.140.1.5.1.2"},
 		{gen.OIDPolAny, gen.OIDPolCS}, {gen.OIDPolAny, gen.OIDPolDV}, {gen.OIDPolAny, "2.23.140.1.5.2.1"}}
-	latticeSANs     = []string{"none", "email", "email-empty", "smtputf8", "smtputf8-empty", "dns", "email+dns", "upn-othername"}
+	latticeSANs = []string{"none", "email", "email-empty", "smtputf8", "smtputf8-empty", "dns", "email+dns", "upn-othername"}
 )
 
 func latticeSize() int { return 128 * len(latticePolicies) * len(latticeSANs) }
